@@ -28,7 +28,7 @@ func c06Subtree(r *R) {
 		return
 	}
 	var mu sync.Mutex
-	evtSeen := map[string][]int{}     // path -> event numbers seen (with sim time)
+	evtSeen := map[string][]int{} // path -> event numbers seen (with sim time)
 	evtSeenAt := map[string][]time.Duration{}
 	tickAt := map[string][]time.Duration{} // owner path -> times a tick was delivered
 	onOther := func(ctx vivid.ActorContext, p *Probe, m any) {
@@ -99,7 +99,11 @@ func c06Subtree(r *R) {
 	}
 	vsimrt.Settle()
 	// watches registered at drawn times (some before, some racing the kills)
-	type watch struct{ watcher int; target string; late bool }
+	type watch struct {
+		watcher int
+		target  string
+		late    bool
+	}
 	var watches []watch
 	for i := 0; i < 1+r.Choose(4); i++ {
 		watches = append(watches, watch{watcher: r.Choose(nW), target: paths[r.Choose(len(paths))], late: r.Chance(30)})
@@ -118,10 +122,10 @@ func c06Subtree(r *R) {
 	// kill phase
 	nKills := 1 + r.Choose(3)
 	type kill struct {
-		target string
-		poison bool
-		from   int // 0 outside, 1 from an actor (a watcher)
-		twice  bool
+		target    string
+		poison    bool
+		from      int // 0 outside, 1 from an actor (a watcher)
+		twice     bool
 		spawnRace bool
 	}
 	var kills []kill
